@@ -737,6 +737,7 @@ def execute(wl: Dict[str, Any], policy: S.Policy, step_cap: int = 20_000_000) ->
                            "overlap": sc.overlap_seen, "cold_overlap": sc.cold_overlap,
                            "hot_switches": sc.hot_switches, "opcodes": sc.opcodes,
                            "lock_contention": sum(getattr(l, "contended", 0) for l in st["locks"]),
+                           "lock_wait_expired": sum(getattr(l, "expired", 0) for l in st["locks"]),
                            "per_thread_steps": [[t.own, t.dep] for t in sc.threads]}
     return out
 
@@ -830,6 +831,8 @@ class E1Driver:
         counters["fault:pre-emption"] = res["switches"]
         counters["fault:pre-emption-in-hot-region"] = res["hot_switches"]
         counters["fault:lock-contention"] = res["lock_contention"]
+        if res.get("lock_wait_expired"):
+            counters["fault:lock-bounded-wait-expired"] = res["lock_wait_expired"]
         counters["mode:" + res["policy"]["mode"]] = 1
         counters[f"threads:{len(wl['threads'])}"] = 1
         if res["overlap"]:
